@@ -500,6 +500,58 @@ func regenerate(rec *hx.Recorder) {
 		rec.Fail("regeneration", "", "types_string.go is not what the repository's stringer generates from types.go: "+firstLineDiff(string(checked), string(out)), strCase{"(regeneration)", 0})
 		return
 	}
+	// the stringer called twice in one process on the same path, the file
+	// replaced in between (a decoy with one constant renamed first, then the
+	// checked-in types.go): the second result is the checked-in tables
+	func() {
+		bin2 := bin + "-twice"
+		defer os.Remove(bin2)
+		cmd2 := exec.Command("go", "build", "-tags", "verif", "-o", bin2, "./cmd/fitgen/verifstringer2")
+		cmd2.Dir = repo
+		if out, err := cmd2.CombinedOutput(); err != nil {
+			rec.Note(fmt.Sprintf("regeneration: no second stringer driver (%v: %s)", err, firstLine(string(out))))
+			return
+		}
+		dir, err := os.MkdirTemp(build, "c20-twice-")
+		if err != nil {
+			rec.Note("regeneration: " + err.Error())
+			return
+		}
+		defer os.RemoveAll(dir)
+		real, err := os.ReadFile(filepath.Join(repo, "types.go"))
+		if err != nil {
+			return
+		}
+		// the decoy renames the first constant of the first listed type
+		var decoy []byte
+		for i := range genTypes {
+			if genTypes[i].Name == list[0] && len(genTypes[i].Consts) > 0 {
+				old := genTypes[i].Consts[0].Name
+				decoy = bytes.ReplaceAll(real, []byte(old), []byte(old+"Decoy"))
+			}
+		}
+		if decoy == nil || bytes.Equal(decoy, real) {
+			rec.Note("regeneration: no decoy could be made")
+			return
+		}
+		os.WriteFile(filepath.Join(dir, "go.mod"), []byte("module twice\n\ngo 1.21\n"), 0o644)
+		os.WriteFile(filepath.Join(dir, "types.go"), decoy, 0o644)
+		os.WriteFile(filepath.Join(dir, "real.txt"), real, 0o644)
+		run2 := exec.Command(bin2, "types.go", strings.Join(list, ","), "real.txt")
+		run2.Dir = dir
+		run2.Env = append(os.Environ(), "GOFLAGS=-mod=mod", "GOWORK=off")
+		var stderr2 bytes.Buffer
+		run2.Stderr = &stderr2
+		out2, err := run2.Output()
+		if err != nil {
+			rec.Note(fmt.Sprintf("regeneration: the second stringer driver failed (%v): %s", err, firstLine(stderr2.String())))
+			return
+		}
+		rec.Eval("regeneration", 1)
+		if !bytes.Equal(out2, checked) {
+			rec.Fail("regeneration", "", "the repository's stringer, called a second time in one process after the file at the same path was replaced by the checked-in types.go, does not generate the checked-in tables: "+firstLineDiff(string(checked), string(out2)), strCase{"(regeneration)", 0})
+		}
+	}()
 	if bin32 != "" {
 		run32 := exec.Command(bin32, "types.go", strings.Join(list, ","))
 		run32.Dir = repo
